@@ -1,7 +1,9 @@
 //! Model-checking harness for chia_rs: engines, reference models, evidence.
 pub mod bfs;
 pub mod cli;
+pub mod drive;
 pub mod engine;
+pub mod refcond;
 pub mod report;
 pub mod sched;
 pub mod sx;
